@@ -1,15 +1,30 @@
 (* USES cosim *)
-(* C04 driver: params = P me blocksize mode base g <own block as payload>; events in canonical window order *)
+(* C04 driver: params = P me blocksize mode base g <own block as payload>; events in canonical window order.
+   A HISTORY (several calls back to back on one communicator, C04/AllgatherHist.v: hist_prog) has the params
+   P me H <entry> <blocksize> <base> <g> <own block> ... (five per call; entry 0 sc_allgather, 1 sc_allgather_recursive,
+   2 sc_allgather_alltoall); the expected output is the concatenation of the outputs of the calls this rank takes part in. *)
+let amax = c_SC_ALLGATHER_ALLTOALL_MAX
+let tags = [| c_SC_TAG_AG_ALLTOALL; c_SC_TAG_AG_RECURSIVE_A; c_SC_TAG_AG_RECURSIVE_B; c_SC_TAG_AG_RECURSIVE_C |]
+let tagmap t = let i = int_of_z t in if i >= 0 && i < 4 then tags.(i) else t
+let rec calls_of (l : string list) : call list =
+  match l with
+  | [] -> []
+  | e :: bs :: base :: g :: mine :: rest ->
+    let mine = pl_of_string mine in
+    { c_entry = (match e with "0" -> E_top | "1" -> E_rec | "2" -> E_a2a | _ -> failwith "bad entry");
+      c_g = z_of_hex g; c_base = z_of_hex base; c_sz = nat_of_int (int_of_z (z_of_hex bs)); c_blk = (fun _ -> mine) } :: calls_of rest
+  | _ -> failwith "bad history"
 let () = iter_lines (fun line ->
   if String.trim line = "" then () else
   let (ps, evs) = split_line line in
   match ps with
+  | p :: me :: "H" :: rest ->
+    (match (try Some (calls_of rest) with Failure _ -> None) with
+     | Some cs -> print_endline (cosim ~tagmap (hist_prog amax (z_of_hex p) (z_of_hex me) cs []) evs)
+     | None -> print_endline "BAD_PARAMS")
   | [p; me; bs; mode; base; g; mine] ->
     let p = z_of_hex p and me = z_of_hex me and bs = int_of_z (z_of_hex bs) and base = z_of_hex base and g = z_of_hex g in
     let mine = pl_of_string mine in
-    let amax = c_SC_ALLGATHER_ALLTOALL_MAX in
-    let tags = [| c_SC_TAG_AG_ALLTOALL; c_SC_TAG_AG_RECURSIVE_A; c_SC_TAG_AG_RECURSIVE_B; c_SC_TAG_AG_RECURSIVE_C |] in
-    let tagmap t = let i = int_of_z t in if i >= 0 && i < 4 then tags.(i) else t in
     let prog =
       if mode = "0" then allgather_prog amax (nat_of_int bs) p me mine
       else
